@@ -29,7 +29,8 @@ pub enum BOp {
 fn builder_alphabet() -> Vec<BOp> {
     let s = |x: &str| Some(x.to_string());
     let mut v = vec![];
-    for src in ["a", "b", "/abs/x.js", ""] {
+    // "httpd/x.js" is a relative name that merely begins like a URL scheme
+    for src in ["a", "b", "/abs/x.js", "", "httpd/x.js"] {
         v.push(BOp::AddSource(src.into()));
     }
     for n in ["n", "m", ""] {
@@ -242,7 +243,7 @@ fn map_alphabet() -> Vec<MOp> {
         v.push(MOp::SetRoot(r));
     }
     for last in [false, true] {
-        for n in ["z.js", "/abs/q.js", "https://h/u"] {
+        for n in ["z.js", "/abs/q.js", "https://h/u", "https.js"] {
             v.push(MOp::SetSource(last, n.into()));
         }
         v.push(MOp::SetContents(last, None));
@@ -431,7 +432,7 @@ pub fn run(run: &mut Run) -> Finish {
     let tier = run.ctx.tier;
     let balpha = builder_alphabet();
     let nb = balpha.len() as u64;
-    let bdepth = tier.pick(4usize, 5);
+    let bdepth = tier.pick(4usize, 6);
     for len in 1..=bdepth {
         run.par_slice(&format!("builder: every history of exactly {len} calls over a {nb}-operation alphabet, then into_sourcemap"), len as u64, nb.pow(len as u32), |idx, l| {
             let k = idx & ((1 << 40) - 1);
@@ -477,7 +478,7 @@ pub fn run(run: &mut Run) -> Finish {
     }
     let malpha = map_alphabet();
     let nm = malpha.len() as u64;
-    let mdepth = tier.pick(4usize, 5);
+    let mdepth = tier.pick(4usize, 6);
     let seeds = map_seeds();
     let ns = seeds.len() as u64;
     for len in 1..=mdepth {
